@@ -95,7 +95,7 @@ pub fn run_model(
                         if !initial_round && c.live(*t, ro) && !c.good(*t, ro) {
                             c.unanswered += 1;
                         }
-                        c.touched = *t;
+                        c.touched = (*t).max(1);
                     }
                 } else if m.is_response() {
                     // find_node / get_peers reply to a probe
@@ -131,7 +131,7 @@ pub fn run_model(
                     if same_id && c.live(*t, ro) && !ro {
                         c.last_query = Some(*t);
                     }
-                    c.touched = *t;
+                    c.touched = (*t).max(1);
                 } else if let Some(r) = m.resp() {
                     if outstanding.remove(&(*src, m.t.clone())).is_some() {
                         let same_id = r.get("id").and_then(id20) == ids.get(src).copied();
@@ -140,7 +140,7 @@ pub fn run_model(
                             c.known = true;
                             c.last_answer = Some(*t);
                             c.unanswered = 0;
-                            c.touched = *t;
+                            c.touched = (*t).max(1);
                             c.ever_seen.get_or_insert(*t);
                         }
                         let named = r
@@ -154,7 +154,7 @@ pub fn run_model(
                             }
                             let d = st.get_mut(&na).unwrap();
                             d.last_named = Some(*t);
-                            d.touched = *t;
+                            d.touched = (*t).max(1);
                             if !d.live(*t, ro) {
                                 // (re-)admitted exactly like a node heard of for the first time
                                 d.known = true;
@@ -294,6 +294,7 @@ impl Property for C10 {
 
     fn check(&self, sc: &Scenario, run: &RunLog) -> Verdict {
         let ro = sc.reals[0].read_only;
+        let grace = sc.param("grace_ms") as u64;
         let mut findings: Vec<(&'static str, u64, String)> = Vec::new();
         let mut reach: BTreeMap<&'static str, u64> = BTreeMap::new();
         let mut samples = 0u64;
@@ -308,13 +309,17 @@ impl Property for C10 {
                     let t = ms.t;
                     for (a, c) in &ms.state {
                         // events at (almost) the same instant as the sample make the order ambiguous
-                        if c.touched + 2 > t && c.touched <= t + 2 && c.touched != 0 {
+                        // (with a slow worker task the node acts on its own sends and on answers up to
+                        // grace ms after the log shows them)
+                        if c.touched + 2 + grace > t && c.touched <= t + 2 && c.touched != 0 {
                             continue;
                         }
                         let g3 = [t.saturating_sub(1), t, t + 1].iter().map(|x| c.good(*x, ro)).collect::<Vec<_>>();
                         let l3 = [t.saturating_sub(1), t, t + 1].iter().map(|x| c.live(*x, ro)).collect::<Vec<_>>();
                         let def_good = g3.iter().all(|x| *x);
-                        let def_not_good = g3.iter().all(|x| !*x);
+                        // (a slow worker stamps an answer up to grace ms after the log shows it, so the
+                        // node's 15-minute edge may lie that much later than the model's)
+                        let def_not_good = g3.iter().all(|x| !*x) && !c.good(t.saturating_sub(1 + grace), ro);
                         let def_live = l3.iter().all(|x| *x);
                         let def_dead = l3.iter().all(|x| !*x);
                         let rep_good = ms.good.contains(a);
@@ -354,7 +359,7 @@ impl Property for C10 {
                     for a in named {
                         if let Some(c) = st.get(a) {
                             let dead = [t.saturating_sub(1), t, t + 1].iter().all(|x| !c.live(*x, ro));
-                            if c.known && dead && !(c.touched + 2 > t) {
+                            if c.known && dead && !(c.touched + 2 + grace > t) {
                                 findings.borrow_mut().push(("bad_offered_to_others", t, format!("find_node reply at {t} ms names {a}, which left {} queries unanswered while not good", c.unanswered)));
                             }
                         }
